@@ -379,3 +379,36 @@ def int_width(ty):
     if ty in ('usize', 'isize'):
         return 64
     return None
+
+
+def builder_sequence(body, local):
+    """ordered list of mutating calls applied to `local` (a Vec/String built in place), in CFG
+    order; each item = (bb, method, [canonical args after the receiver], loop_depth, callsite).
+    Fails closed if the calls are not totally ordered by dominance."""
+    items = []
+    for cs in body.calls:
+        if not cs.args:
+            continue
+        a0 = cs.args[0]
+        if a0['k'] not in ('copy', 'move'):
+            continue
+        r = a0['place']
+        # receiver is `&mut local` held in a temp: resolve through a single ref assignment
+        e = body.op_expr(a0)
+        ok = False
+        if e[0] == 'ref':
+            inner = e[1]
+            # compare against the local's own expression
+            if inner == body.local_expr(local):
+                ok = True
+        if not ok:
+            continue
+        if not a0['place']['ty'].startswith('&mut'):
+            continue
+        items.append(cs)
+    # order by dominance
+    items.sort(key=lambda c: len(body.dominators().get(c.bb, ())))
+    for x, y in zip(items, items[1:]):
+        if not body.dominates(x.bb, y.bb) and body.loop_depth(x.bb) == body.loop_depth(y.bb) == 0:
+            raise Unrecognised('builder', 'mutations of _%d in %s are not totally ordered' % (local, body.path))
+    return [(c.bb, mir.method_name(c.name), [mir.canon(body.op_expr(a)) for a in c.args[1:]], body.loop_depth(c.bb), c) for c in items]
